@@ -1,7 +1,9 @@
 (* Properties/C08.v — All views of a message agree: the two owned name types; decoding vs skipping;
    the three record-header flavours; the iterator API vs the cursor-style reader, record by record;
    marker-based random access; NameRef::eq vs comparison of the decoded names; label iteration vs
-   the RFC expansion; the Questions iterator yields exactly the questions of the linear pass. *)
+   the RFC expansion; the iterator API over a whole message: MessageIterator::new finds the answers
+   offset, questions() yields exactly the questions of the linear pass, records() exactly its records
+   of known type and class with their typed data. *)
 From RsdnsModel Require Import Base GenReader Cursor Names Labels Header Tracker RData Reader Script Iter.
 From RsdnsModel.Spec Require Import WireName LinearPass.
 From RsdnsModel.Proofs Require Import CursorSafe LabelsSound Views RandAccess Flavours IterAgree NameRefEq ReaderRefine QuestionsIter.
@@ -94,3 +96,24 @@ Theorem C08_questions_iterator : forall msg nq an ns ar qs rs e1 e2 h,
   Forall (fun it => a_fits255 it = true) qs ->
   iter_questions msg h = (map (qobs msg) qs, None).
 Proof. exact iter_questions_spec. Qed.
+
+(* MessageIterator::new on a message all of whose announced questions parse: the header, and the
+   answers offset = where the questions of the pass end *)
+Theorem C08_iterator_new : forall msg nq an ns ar qs rs e1 e2 h c1,
+  parsed msg nq an ns ar qs rs e1 e2 -> lenN qs = nq ->
+  read_header msg (c_new msg) = (c1, Ok h) -> h_qd h = nq -> iter_new msg = Ok (h, e1).
+Proof. exact iter_new_spec. Qed.
+
+(* MessageIterator::records() drained, on a completely parsed message: [iter_items] (Proofs/
+   ReaderRefine.v) walks the records of the linear pass in order; a record of unknown type or class
+   is passed over silently; every other record is yielded with its section (by counting), the
+   decoded text of the spec's owner labels, CLASS, TYPE, TTL and the value the typed decoder of its
+   own TYPE returns at its data offset ([decoded]; what that value is: C02/C04).  If every such
+   record has an owner of at most 255 octets and data that decodes (iter_items = Some l), the
+   iterator yields exactly l and then ends without an error — the same headers and data the
+   cursor-style reader returns for these records (C09_record_header_flavours/_data_flavours). *)
+Theorem C08_records_iterator : forall msg nq an ns ar qs rs e1 e2, parsed msg nq an ns ar qs rs e1 e2 ->
+  forall h l, lenN rs = an + ns + ar ->
+  h_qd h <= 65535 -> h_an h = an -> h_ns h = ns -> h_ar h = ar -> lenN qs = nq ->
+  iter_items msg nq an ns ar 0 rs = Some l -> iter_records msg h e1 = Ok (l, None).
+Proof. exact iter_records_any. Qed.
